@@ -26,6 +26,8 @@ QUICK = {
 }
 THOROUGH = {
     "rpc-c2": dict(Kind="rpc", Confs=2, MaxNew=3, MaxReorg=1, MaxFault=1, MaxPoll=2),
+    "rpc-big": dict(Kind="rpc", Confs=2, MaxNew=3, MaxReorg=1, MaxFault=2, MaxPoll=2),
+    "el-big": dict(Kind="electrum", Confs=2, MaxNew=4, MaxReorg=1, MaxFault=2, MaxPoll=3),
     "rpc-c3": dict(Kind="rpc", Confs=3, Csv=4, MaxNew=3, MaxReorg=1, MaxFault=1, MaxPoll=1),
     "rpc-cberr": dict(Kind="rpc", Confs=2, MaxNew=2, MaxReorg=1, MaxFault=1, MaxPoll=1, CbErr="TRUE"),
     "rpc-f2": dict(Kind="rpc", Confs=2, MaxNew=2, MaxReorg=1, MaxFault=2, MaxPoll=1),
@@ -60,9 +62,9 @@ def model_check(wd, name, consts, workers):
     for ln in res["out"].splitlines():
         if ln.startswith('"{'):
             o = json.loads(json.loads(ln))
-            scheds.setdefault(o["key"], o["s"])
-    out = [dict(kind=c["Kind"], confs=int(c["Confs"]), window=int(c["Window"]), csv=int(c["Csv"]), s=scheds[k])
-           for k in sorted(scheds)]
+            scheds.setdefault(o["key"], (o["s"], o.get("pred", [])))
+    out = [dict(kind=c["Kind"], confs=int(c["Confs"]), window=int(c["Window"]), csv=int(c["Csv"]), s=scheds[k][0],
+                pred=scheds[k][1]) for k in sorted(scheds)]
     shutil.rmtree(d, ignore_errors=True)
     return dict(name=name, consts=c, distinct=res["distinct"], generated=res["generated"], depth=res["depth"],
                 wall=round(res["wall"], 1), schedules=out)
@@ -108,11 +110,13 @@ def run(prop, tier):
             mcs = list(ex.map(lambda kv: model_check(wd, kv[0], kv[1], per), sorted(cfgs.items())))
         sched = os.path.join(wd, "sched.ndjson")
         nsched = 0
+        pred = {}      # trace number -> reports predicted by the specification's watcher
         with open(sched, "w") as f:
             for m in mcs:
                 for s in m["schedules"]:
-                    f.write(json.dumps(s) + "\n")
                     nsched += 1
+                    pred[nsched] = list(s.pop("pred"))
+                    f.write(json.dumps(s) + "\n")
         nrand = 150000 if tier == "thorough" else 6000
         trace = os.path.join(wd, "trace.ndjson")
         steps = os.path.join(wd, "steps.ndjson")
@@ -159,6 +163,7 @@ def run(prop, tier):
         reports, nrep, srcs = {}, 0, {}
         sample_ts = set(random.Random(vp.seed()).sample(range(1, ntraces + 1), min(4, ntraces)))
         samples = {}
+        actual = {}
         for ln in open(trace):
             o = json.loads(ln)
             if o["e"] == "reset":
@@ -168,8 +173,15 @@ def run(prop, tier):
                 nrep += 1
                 k = "%s/%s" % (o["reg"], o["res"])
                 reports[k] = reports.get(k, 0) + 1
+                if o["t"] in pred:
+                    actual.setdefault(o["t"], []).append(k)
             if o["t"] in sample_ts:
                 samples.setdefault(o["t"], []).append(o)
+        differ = sorted(t for t in pred if pred[t] != actual.get(t, []))
+        shapes = {}
+        for t in differ:
+            k = "%s -> %s" % (",".join(pred[t]) or "-", ",".join(actual.get(t, [])) or "-")
+            shapes[k] = shapes.get(k, 0) + 1
         rc = ver.report()
         vp.write_evidence(prop, tier, "model_checking", dict(
             states=sum(m["distinct"] for m in mcs), transitions=sum(m["generated"] for m in mcs),
@@ -185,6 +197,11 @@ def run(prop, tier):
                                  depth=m["depth"], schedules_exported=len(m["schedules"]), wall_s=m["wall"]) for m in mcs],
             schedules_from_tlc=nsched, schedules_random=nrand, schedules_by_source_and_kind=srcs,
             trace_lines=nlines, reports_judged=nrep, reports_by_kind=reports,
+            model_prediction=dict(
+                note="reports of the real watcher vs reports of the specification's watcher on the same TLC schedule; a difference "
+                     "is not a violation (the verdict comes from WatcherTrace), it measures how faithful the design model is",
+                same=nsched - len(differ), different=len(differ), different_by_shape=shapes,
+                examples=[dict(t=t, predicted=pred[t], real=actual.get(t, [])) for t in differ[:5]]),
             trace_spec="WatcherTrace: chain replayed with Watcher's operators and cross-checked; P_C20a/c on every report against the "
                        "chain states between trigger observation and callback; P_C20b at the end of every evaluation; P_C20d on "
                        "every report",
